@@ -141,6 +141,21 @@ def build_traces(path, tier, seed):
             ns = np.round(ns * 40).astype(np.int64)
             we = np.round(we * 40).astype(np.int64)
         a, b = eqsig.AccSignal(ns, dt), eqsig.AccSignal(we, dt)
+        hist_ = bool(rng.integers(3))
+        if hist_:
+            # history: the same two objects were scanned before, then one or both records were changed through the public API
+            # (same length): the scan is the measure of the combination of what the components hold NOW
+            with warnings.catch_warnings():
+                warnings.simplefilter("ignore")
+                multiple.compute_rotated(a, b, angle_off_ns=off, parameter="pga", points=points)
+                if m not in ("pga", "velocity"):
+                    multiple.compute_rotated(a, b, angle_off_ns=off, func=lambda s_: s_.pgv, points=points)
+                which = int(rng.integers(3))
+                if which != 1:
+                    a.add_constant(float(rng.uniform(0.2, 1.0)))
+                if which != 0:
+                    b.reset_values(np.asarray(b.values, dtype=float)[::-1] * float(rng.uniform(0.5, 2.0)))
+            ns, we = np.array(a.values, dtype=float), np.array(b.values, dtype=float)
         ns, we = np.asarray(ns, dtype=float), np.asarray(we, dtype=float)
         if m == "pga":
             ang, vals = multiple.compute_rotated(a, b, angle_off_ns=off, parameter="pga", points=gen.intlike(rng, points))
@@ -159,7 +174,7 @@ def build_traces(path, tier, seed):
         tid += 1
         recs.append({"tid": tid, "kind": "scan", "dt": enc(dt), "ns": enc_seq(ns), "we": enc_seq(we), "off": enc(off), "points": points,
                      "measure": m, "angles": enc_seq(ang), "vals": vals})
-        meta[tid] = {"kind": "scan", "n": n, "off": off, "points": points, "measure": m}
+        meta[tid] = {"kind": "scan", "n": n, "off": off, "points": points, "measure": m, "scanned_before_and_changed": hist_}
     # the scan returns exactly the measure of combine_at_angle(ns, we, angle) -- also for spectral measures and when the
     # components were built with settings of their own (the combination is a new record with the library's defaults)
     for j in range(3 if tier == "quick" else 12):
